@@ -407,41 +407,82 @@ def _test_and_set(B):
     return [(bb, t) for bb, t in B.calls() if (M.Body.callee_decl(t) or "").endswith(TEST_AND_SET)]
 
 
+def _clearing_stores(B):
+    """[(bb, term)] of the atomic writes to a `processed` flag in body B whose stored value is not the constant `true`"""
+    out = []
+    for bb, t in B.calls():
+        d = M.Body.callee_decl(t) or ""
+        if not d.endswith(CLEARING) or not t.get("args"):
+            continue
+        os_ = M.trace(B, t["args"][0])
+        if not (os_ and any("processed" in o.fields() for o in os_)):
+            continue
+        vi = 2 if d.endswith(("compare_exchange", "compare_exchange_weak")) else 1
+        vals = M.trace(B, t["args"][vi], M.IDENTITY_CALLS) if len(t["args"]) > vi else []
+        sets_true = bool(vals) and all(v.kind == "const" and "true" in str(v.const.get("text")) for v in vals) and not d.endswith(
+            ("fetch_and", "fetch_xor", "fetch_nand", "fetch_update", "get_mut", "fetch_not"))
+        if not sets_true:
+            out.append((bb, t))
+    return out
+
+
+def _clearing_stores_deep(F, B, depth=0):
+    """clearing stores of B and of the closures created in B (transitively): [(block of B at which it happens / the closure is
+    created, source position)]"""
+    out = [(bb, B.term(bb).get("sp")) for bb, t in _clearing_stores(B)]
+    if depth < 3:
+        for bb, cpath in I.closure_sites(B):
+            cb = F.lib.body(cpath)
+            if cb is None or not cb.get("mir"):
+                continue
+            CB = M.Body(I.Inliner(F.lib).body(cb))
+            out += [(bb, sp_) for _b, sp_ in _clearing_stores_deep(F, CB, depth + 1)]
+    return out
+
+
 def _cleared_only_at_entry(ck, F, g, heads):
     """Within one run a file that was read stays marked: the processed flag is written with anything other than `true` only in a
     function that enters the import recursion from outside (the reset at the start of a run), before it does so. A clearing store
     anywhere else (in the recursion, in a helper of it, in a `Drop` impl) makes a file readable again while the run is going on:
-    a file imported along two paths is then read and merged twice."""
+    a file imported along two paths is then read and merged twice. Helpers are read inlined (a setter `set_processed(flag)` stores
+    what its caller passes)."""
     rec = set()
     for fn, B, cs in heads:
         rec |= cs
     n = 0
-    for b in scans.bodies(F.lib):
-        if "yaserde_tests" in b["path"] or "::tests::" in b["path"]:
-            continue
-        B = M.Body(b)
-        for bb, t in B.calls():
-            d = M.Body.callee_decl(t) or ""
-            if not d.endswith(CLEARING) or not t.get("args"):
-                continue
-            os_ = M.trace(B, t["args"][0])
-            if not (os_ and any("processed" in o.fields() for o in os_)):
-                continue
-            vi = 2 if d.endswith(("compare_exchange", "compare_exchange_weak")) else 1
-            vals = M.trace(B, t["args"][vi], M.IDENTITY_CALLS) if len(t["args"]) > vi else []
-            sets_true = bool(vals) and all(v.kind == "const" and "true" in str(v.const.get("text")) for v in vals) and not d.endswith(
-                ("fetch_and", "fetch_xor", "fetch_nand", "fetch_update", "get_mut", "fetch_not"))
-            if sets_true:
-                continue
+    # (a) inside the recursion: the collapsed bodies of its heads hold everything the recursion runs
+    for fn, B, cs in heads:
+        for bb, sp_ in _clearing_stores_deep(F, B):
             n += 1
-            short = b["path"].rsplit("::", 1)[-1]
-            owner = b["path"].split("::{closure")[0]
-            enters = [cbb for cbb, ct in B.calls() if ((M.Body.callee(ct) or "") in rec or (M.Body.callee_decl(ct) or "") in rec)]
-            at_entry = owner not in rec and bool(enters) and not any(bb in B.reachable_from(cbb) for cbb in enters)
-            if at_entry:
-                ck.ok("R1", f"flag-cleared-at-entry:{short}", B.term(bb).get("sp"), f"{short}: the processed flags are reset before the import recursion is entered", fn=b["path"])
+            short = fn.rsplit("::", 1)[-1]
+            ck.violation("R1", f"flag-cleared:{short}", sp_,
+                         f"{fn} (or a helper it calls) clears a file's processed flag while the import recursion is running: a file that was "
+                         f"read becomes readable again, so a file imported along two paths is read (and merged) once per path", fn=fn)
+    # (b) the functions that enter the recursion from outside: the reset must come before the entry
+    local = {b["path"] for b in F.lib.bodies if b.get("mir")}
+    for f_ in sorted(local):
+        if f_ in rec or "{closure" in f_ or "yaserde_tests" in f_ or "::tests::" in f_:
+            continue
+        if not (g.get(f_, set()) & rec):
+            continue
+        IB = I.inlined_body(F.lib, f_, stop=lambda p, rec=frozenset(rec): p in rec)
+        enters = [cbb for cbb, ct in IB.calls() if ((M.Body.callee(ct) or "") in rec or (M.Body.callee_decl(ct) or "") in rec)]
+        short = f_.rsplit("::", 1)[-1]
+        for bb, sp_ in _clearing_stores_deep(F, IB):
+            n += 1
+            if enters and not any(bb in IB.reachable_from(cbb) for cbb in enters):
+                ck.ok("R1", f"flag-cleared-at-entry:{short}", sp_, f"{short}: the processed flags are reset before the import recursion is entered", fn=f_)
             else:
-                ck.violation("R1", f"flag-cleared:{short}", B.term(bb).get("sp"),
-                             f"{b['path']} clears a file's processed flag outside the reset at the start of a run: during one run a file that was "
-                             f"read becomes readable again, so a file imported along two paths is read (and merged) once per path", fn=b["path"])
+                ck.violation("R1", f"flag-cleared:{short}", sp_,
+                             f"{f_} clears a file's processed flag after it entered the import recursion", fn=f_)
+    # (c) destructors run wherever a value goes out of scope: no clearing there at all
+    for b in scans.bodies(F.lib):
+        if " as std::ops::Drop>::drop" not in b["path"]:
+            continue
+        DB = I.inlined_body(F.lib, b["path"])
+        for bb, sp_ in _clearing_stores_deep(F, DB):
+            n += 1
+            ck.violation("R1", "flag-cleared:drop", sp_,
+                         f"{b['path']} clears a file's processed flag when a value is dropped, i.e. outside the reset at the start of a run: during "
+                         f"one run a file that was read becomes readable again, so a file imported along two paths is read (and merged) once per path", fn=b["path"])
     return n
